@@ -262,18 +262,23 @@ COMP_ASSUME = CTX_ASSUME + [
 PROPS["C05"] = {
     "functions": ["_component.start_component", "_component._init_component", "_component._start_component",
                   "_component.ComponentContext.__init__", "_component.ComponentContext.get_resource",
-                  "_component.ComponentContext.get_resource.<lambda@0>", "lemma:frame"],
+                  "_component.ComponentContext.get_resource.<lambda@0>", "_component.ComponentContext.get_resource_nowait",
+                  "_component.ComponentContext.get_resources", "_component.ComponentContext.add_resource",
+                  "_component.ComponentContext.add_resource_factory", "_component.ComponentContext.add_teardown_callback",
+                  "_component.ComponentContext.start_service_task", "_component.ComponentContext.start_background_task_factory", "lemma:frame"],
     "trusted": COMP_TRUSTED, "assumptions": COMP_ASSUME,
     "undecided": ["liveness of acyclic waiting patterns (every waiter is eventually released) - bounded harness only",
-                  "everything registered belongs to the surrounding context: by delegation (ComponentContext wrappers, C06/C14 contracts) + C01/C08"],
+                  "teardown of what was registered when the surrounding context is left: C01/C08 (composition by contract)"],
     "level": "other",
     "level_text": "Partly proved, partly bounded. Proved on the real bodies, for all inputs and paths: start_component builds the whole tree "
                   "(_init_component, once, returned) strictly before the single _start_component call on that tree's root, spawns the watchdog first iff "
                   "a timeout is given and cancels it only after a successful start, returns the root's component; _init_component resolves, constructs "
                   "and recurses exactly once per child of the merged configuration; _start_component (per node, inside `async with` its context): "
                   "prepare() iff overridden and before any child is spawned, every child spawned exactly once in one atomic segment inside an inner task "
-                  "group, start() iff overridden and only after that group exited normally, state started at return. Bounded (harness, random trees "
-                  "of depth <= 3): the composition over the whole tree, waiting patterns, ownership of what components register.",
+                  "group, start() iff overridden and only after that group exited normally, state started at return; every registering operation of a "
+                  "ComponentContext (add_resource, add_resource_factory, add_teardown_callback, start_service_task, start_background_task_factory) "
+                  "and every lookup forwards exactly once to the plain context that was current when the tree was built, with the same arguments "
+                  "(ownership). Bounded (harness, random trees of depth <= 3): the composition over the whole tree, waiting patterns.",
     "level_note": "Not counted as proved: whole-tree composition and waiting liveness (bounded harness; scope in evidence).",
     "design_ref": "DESIGN.md section 5 (C05)",
     "technique": "contract-based deductive verification of start_component / _init_component / _start_component (pyvc + z3) + bounded model-based harness over random component trees",
